@@ -198,7 +198,7 @@ func genSchema(r *hx.Rng, n int, allowDup bool) []storage.FieldDef {
 }
 
 func runTuple(cfg *config) {
-	id := 0
+	id := cfg.nextID
 	if cfg.replay != nil {
 		for _, c := range cfg.replay {
 			var fields []storage.FieldDef
